@@ -47,6 +47,8 @@ def forbidden_scan():
 
 
 def ensure_makefile():
+    from . import gen
+    gen.write_coqproject()
     mk = os.path.join(COQ, "Makefile")
     cp = os.path.join(COQ, "_CoqProject")
     if not os.path.exists(mk) or os.path.getmtime(mk) < os.path.getmtime(cp):
@@ -66,47 +68,47 @@ def make(targets, timeout=3000, jobs=16):
     return rc == 0, out, time.time() - t0
 
 
-def build_driver():
-    """Extraction + OCaml driver. Returns (ok, output)."""
-    ok, out, _ = make(["Extract/Extract.vo"])
+def build_driver(pid):
+    """Extraction + OCaml driver of one property (coq/Extract/Extract<pid>.v -> coq/Extract/<pid>/driver). Returns (ok, output)."""
+    ex = os.path.join(COQ, "Extract", pid)
+    os.makedirs(ex, exist_ok=True)
+    ok, out, _ = make([f"Extract/Extract{pid}.vo"])
     if not ok:
         return False, out
-    ex = os.path.join(COQ, "Extract")
     with Lock():
         drv = os.path.join(ex, "driver")
-        srcs = [os.path.join(ex, f) for f in ("model.mli", "model.ml", "driver.ml")]
+        srcs = [os.path.join(ex, "model.mli"), os.path.join(ex, "model.ml"), os.path.join(COQ, "Extract", "driver.ml")]
         if not all(os.path.exists(s) for s in srcs[:2]):
-            # Extract.vo up to date but outputs removed: force re-extraction
-            os.remove(os.path.join(ex, "Extract.vo"))
-            ok2 = subprocess.run(["make", "Extract/Extract.vo"], cwd=COQ, capture_output=True, text=True)
+            # Extract<pid>.vo up to date but outputs removed: force re-extraction
+            os.remove(os.path.join(COQ, "Extract", f"Extract{pid}.vo"))
+            ok2 = subprocess.run(["make", f"Extract/Extract{pid}.vo"], cwd=COQ, capture_output=True, text=True)
             if ok2.returncode != 0:
                 return False, ok2.stdout + ok2.stderr
         if (not os.path.exists(drv)) or any(os.path.getmtime(s) > os.path.getmtime(drv) for s in srcs):
-            p = subprocess.run(["ocamlfind", "ocamlopt", "-O3", "-w", "-a", "model.mli", "model.ml", "driver.ml", "-o", "driver"],
+            p = subprocess.run(["ocamlfind", "ocamlopt", "-O3", "-w", "-a", "-I", ".", "model.mli", "model.ml", "../driver.ml", "-o", "driver"],
                                cwd=ex, capture_output=True, text=True)
             if p.returncode != 0:
                 return False, p.stdout + p.stderr
     return True, ""
 
 
-_FN = None
+_FN = {}
 
 
-def fn_table():
-    global _FN
-    if _FN is None:
-        text = open(os.path.join(COQ, "Model", "Dispatch.v")).read()
-        _FN = {m.group(2): int(m.group(1)) for m in re.finditer(r"\|\s*(\d+)\s*\(\*\s*(\w+)\s*\*\)", text)}
-    return _FN
+def fn_table(pid):
+    if pid not in _FN:
+        text = open(os.path.join(COQ, "Model", f"Dispatch{pid}.v")).read()
+        _FN[pid] = {m.group(2): int(m.group(1)) for m in re.finditer(r"\|\s*(\d+)\s*\(\*\s*(\w+)\s*\*\)", text)}
+    return _FN[pid]
 
 
-def run_driver(calls):
+def run_driver(pid, calls, shards=1):
     """calls: list of (name, [ints]) -> list of [ints]"""
-    tbl = fn_table()
+    tbl = fn_table(pid)
     lines = []
     for name, args in calls:
         lines.append(str(tbl[name]) + " " + " ".join(map(str, args)))
-    p = subprocess.run([os.path.join(COQ, "Extract", "driver")], input="\n".join(lines) + "\n", capture_output=True, text=True)
+    p = subprocess.run([os.path.join(COQ, "Extract", pid, "driver")], input="\n".join(lines) + "\n", capture_output=True, text=True)
     if p.returncode != 0:
         raise RuntimeError("model driver failed: " + p.stderr[-2000:])
     outs = p.stdout.split("\n")
@@ -117,20 +119,20 @@ def run_driver(calls):
     return [list(map(int, o.split())) for o in outs]
 
 
-def run_vm(calls, tag):
+def run_vm(pid, calls):
     """Evaluate the same calls inside Coq with vm_compute; returns list of [ints]."""
-    tbl = fn_table()
+    tbl = fn_table(pid)
     d = os.path.join(COQ, "Cases")
     os.makedirs(d, exist_ok=True)
-    path = os.path.join(d, f"cases_{tag}_{os.getpid()}.v")
+    path = os.path.join(d, f"cases_{pid}_{os.getpid()}.v")
 
     def z(v):
         return f"({v})" if v < 0 else str(v)
     items = ";\n ".join(f"({tbl[n]}, [" + "; ".join(z(a) for a in args) + "])" for n, args in calls)
     with open(path, "w") as f:
-        f.write("From Coq Require Import ZArith List.\nFrom PV Require Import Model.Dispatch.\nImport ListNotations.\nOpen Scope Z_scope.\n"
+        f.write(f"From Coq Require Import ZArith List.\nFrom PV Require Import Model.Dispatch{pid}.\nImport ListNotations.\nOpen Scope Z_scope.\n"
                 "Definition cases : list (Z * list Z) := [\n " + items + "].\n"
-                "Definition outs := Eval vm_compute in map (fun c => dispatch (fst c) (snd c)) cases.\n"
+                f"Definition outs := Eval vm_compute in map (fun c => Dispatch{pid}.dispatch (fst c) (snd c)) cases.\n"
                 "Set Printing Depth 1000000. Set Printing Width 1000000.\nPrint outs.\n")
     try:
         p = subprocess.run(["timeout", "600", "coqc", "-R", ".", "PV", path], cwd=COQ, capture_output=True, text=True)
